@@ -35,6 +35,9 @@ def rnd_desc(rng: random.Random, i: int) -> dict[str, Any]:
         handlers.append({'kind': 'resume', 'id': 'r2', 'script': rng.choice([[], [['temp', 2]], [['perm']]]), 'opts': {'deleted': True} if rng.random() < 0.5 else {}})
     if rng.random() < 0.5:
         handlers.append({'kind': 'delete', 'id': 'd1', 'script': rng.choice([[], [['temp', 1]]])})
+    if rng.random() < 0.25:
+        # a daemon that takes several re-checks to exit: a deletion (with the resume handlers mixed in) spans more than one processing pass
+        handlers.append({'kind': 'daemon', 'id': 'dm', 'persona': rng.choice([{'type': 'linger', 'linger': rng.choice([0.5, 3.0])}, {'type': 'obedient'}]), 'opts': {}})
     names = [f'o{k}' for k in range(rng.randint(1, 3))]
     tl: list[list[Any]] = [[0.0, 'start', 'op1']]
     for n in names:
@@ -68,7 +71,8 @@ def rnd_desc(rng: random.Random, i: int) -> dict[str, Any]:
     return {'seed': rng.randrange(1 << 30), 'handlers': handlers, 'timeline': tl, 'quiet': 20.0, 'horizon': 500.0,
             'lifecycle': rng.choice([None, 'one_by_one', 'all_at_once']), 'storage': rng.choice(['default', 'status', 'annotations']),
             'prefix': None, 'settings': {'queueing__idle_timeout': rng.choice([0.5, 5.0]), 'persistence__consistency_timeout': 1.0, 'execution__default_backoff': 1.0,
-                                         'watching__reconnect_backoff': 0.1, 'watching__inactivity_timeout': rng.choice([3.0, 70.0])},
+                                         'watching__reconnect_backoff': 0.1, 'watching__inactivity_timeout': rng.choice([3.0, 70.0]),
+                                         'background__cancellation_polling': 1.0},
             'lag': {'values': rng.choice([[0.0], [0.0, 0.2]])}}
 
 
